@@ -33,7 +33,7 @@ FUNCTIONS = ['Algebra.__post_init__ (custom basis mapping)', 'Algebra.fromname',
              'Algebra.__eq__ (dataclass equality) used by OperatorDict._call_binary/__call__/Registry.__call__', 'every codegen_* operator in a custom basis']
 ASSUMPTIONS = ['coefficients are reals; denominators non-zero', 'duals are compared relative to the algebra\'s own pseudoscalar (orientation factor s)',
                'algebras that differ only in start index are not required to be rejected']
-BOUNDS = {'quick': 'custom bases exhaustive d<=2 (14 sampled), 24 sampled d=3,4, named algebras, shifted start index; 27 operators on random sparse patterns; matrix representation d<=3; rejection: 14 algebra pairs x 3 call paths',
+BOUNDS = {'quick': 'custom bases exhaustive d<=2 (14 sampled), 24 sampled d=3,4, named algebras, shifted start index; 27 operators on random sparse patterns; matrix representation d<=3; rejection: 14 algebra pairs x 3 call paths; rejection over 5 x 5 operand key patterns (scalar, empty, pseudoscalar, mixed) and 7 infix operators',
           'thorough': '900 sampled bases d=3,4, 40 at d=5'}
 OUTSIDE = ['matrix representation in custom bases (C18)', 'generator names beyond single hex digits']
 OPTS = {'rlimit': 300_000_000, 'canary_every': 12}
